@@ -118,6 +118,15 @@ CHECKS = {
                      "and outbound, with partial reads and peer DWRs in both ready sub-states.",
                 ref="4 C11", note=NODE_NOTE + "; 'longer than the timeout' is strict; a step in which bytes arrive "
                 "after a deadline already passed accepts either outcome."),
+    "C12": dict(cat="exploration", tech="lockstep node harness with scripted connect() outcomes and virtual clock; "
+                "reconnect-policy model judged at every timer check; DPR answer, routing and reason checks",
+                text="Exhaustive sequences of 3 (thorough 4) connection outcomes {refused, in-progress then success / "
+                     "failure, CEA rejected, CEA timeout, peer gone, socket error, DPR, inbound connection of the same "
+                     "peer that closes} x 6 flag sets (persistent, always_reconnect, reconnect_wait, addresses), random "
+                     "longer sequences with reconnect_wait 1..60; the clock is stepped 1 s at a time and every tick is "
+                     "judged: dial required / forbidden, number of live self-initiated sockets.",
+                ref="4 C12", note=NODE_NOTE + "; a socket whose connect() was refused synchronously is not a "
+                "connection."),
 }
 
 NOT_YET = "check not built yet in this round (planned in DESIGN.md section 4); no claim is made"
